@@ -143,3 +143,26 @@ Definition loop_iteration (c : loop_cfg) (rows : list trow)
   dor sel <- loop_select c h v;
   Ok (th, dm, h, sel).
 End Loop.
+
+(* ---- the view handed to the model: ScreenSubset.single_treatment_effects of screen.subset_observed() (data.py:598-602 slices
+   the PARENT's table by the selection vector; Screen.single_treatment_effects, data.py:1002-1016, builds that table with
+   create_single_treatment_effect_array from the sample ids, treatment ids and observations of ALL rows - the mask is not
+   consulted; a KeyError of the construction makes the property None).  arity >= 2 (below it the map raises ValueError).
+   [*_repaired]: the table computed from the observed rows only. ---- *)
+Fixpoint lk_find (k : lkey) (m : lookup) : option oval :=
+  match m with
+  | [] => None
+  | (k', v) :: r => if (fst k =? fst k') && (snd k =? snd k') then Some v else lk_find k r
+  end.
+(* create_single_treatment_effect_array: per row, per treatment slot, the map's entry; None = KeyError *)
+Definition effect_rows (m : lookup) (rows : list trow) : option (list (list oval)) :=
+  all_some (map (fun r => all_some (map (fun t => lk_find (t_sample r, t) m) (t_treats r))) rows).
+Definition screen_single_effects (arity : nat) (rows : list trow) : option (list (list oval)) :=
+  effect_rows (single_effect_map arity rows) rows.
+Definition subset_observed_single_effects (arity : nat) (rows : list trow) : option (list (list oval)) :=
+  match screen_single_effects arity rows with
+  | Some tab => Some (select (map t_mask rows) tab)
+  | None => None
+  end.
+Definition subset_observed_single_effects_repaired (arity : nat) (rows : list trow) : option (list (list oval)) :=
+  screen_single_effects arity (filter t_mask rows).
